@@ -1440,6 +1440,19 @@ class Interp:
         if not isinstance(loop, ast.For):
             raise Unsupported("while loop body")
         self.assign(loop.target, target_value, env)
+        # the locals the body reads but the contract's environment does not provide (a renamed or new local that is set
+        # before the loop): that is a harness that no longer fits the code - undecided, not an exception of the code
+        provided = set()
+        e_ = env
+        while e_ is not None:
+            provided |= set(e_.vars); e_ = e_.parent
+        inside = {id(n) for n in ast.walk(loop)}
+        pre = {n.id for n in ast.walk(fnode) if isinstance(n, ast.Name) and isinstance(n.ctx, ast.Store) and id(n) not in inside} | \
+              {a.arg for a in fnode.args.args + fnode.args.kwonlyargs}
+        for st in loop.body:
+            for n in ast.walk(st):
+                if isinstance(n, ast.Name) and isinstance(n.ctx, ast.Load) and n.id in pre and n.id not in provided:
+                    raise Unsupported(f"loop body reads the local '{n.id}', which the contract's environment does not provide")
         try:
             for st in loop.body:
                 self.stmt(st, env)
